@@ -7,9 +7,11 @@ built with breezy.log.make_log_request_dict and run through
 _DefaultLogGenerator(branch, **rqst).iter_log_revisions() under a read lock (a fresh
 branch object per request, or one object kept locked across requests so that the
 revno caches are warm):
-direction reverse|forward, levels 0|1|2, limit, no range / mainline range a..b (endpoints
+direction reverse|forward, levels 0|1|2|3, limit, no range / mainline range a..b (endpoints
 written as numbers, negative numbers, last:n, revid:) / open ranges a.. and ..b / a single
-mainline or dotted revision, exclude_common_ancestry, specific_files (one or two paths
+mainline or dotted revision / ranges s..d and ..d whose upper limit d is a merged revision
+(nested lines: the generator builds lines branched from merged revisions and merges of
+merges 2-3 deep), exclude_common_ancestry, specific_files (one or two paths
 as they are called at the end of the range), delta_type None|partial|full, and both
 file-matching algorithms (per-file graph, delta matching).
 
@@ -27,8 +29,13 @@ Oracle (graph model + the numbers the branch itself reports):
  * per file: per-file-graph and delta matching list the same MAINLINE revisions, namely
    the mainline revisions of the range whose model tree delta against the left-hand
    parent touches the file id (judged only where every merged change of the file is
-   also in the delta of the mainline revision that merged it, and no revision of the
-   range deletes the file - otherwise the two definitions legitimately differ)."""
+   also in the delta of the mainline revision that merged it, no revision of the
+   range deletes the file, and every revision in which the commit rule records a new
+   per-file version also shows the file in its left-hand delta - otherwise the two
+   definitions legitimately differ);
+ * every (revision, revno) that log emits equals the branch's own dotted revno, also
+   for ranges whose limits are merged revisions on lines branched from merged lines
+   (levels=1 there lists exactly the left-hand chain between the limits)."""
 
 import copy
 
@@ -122,11 +129,19 @@ def generate(rng, tier):
     fmt = rng.choice(storesim.FORMATS + ["2a"])
     mh = MHist()
     n = rng.randint(4, 16)
+    pre, lines = [], None
+    if rng.random() < 0.55:
+        # lines branched from merged (non-mainline) revisions, merges of merges: nesting 2-3 deep
+        pre, lines = graphsim.gen_nested_prefix(rng, mh, "g", depth=rng.choice([2, 2, 3]), realistic=True)
+        n = max(1, n - len(pre))
+        if rng.random() < 0.4:
+            n = rng.randint(0, 2)
     specs, lines = gen_dag(
         rng,
         mh,
         n,
         "g",
+        lines=lines,
         max_lines=rng.choice([2, 3, 3, 4]),
         p_merge=rng.choice([0.3, 0.45, 0.55]),
         p_fork=rng.choice([0.1, 0.2]),
@@ -134,6 +149,7 @@ def generate(rng, tier):
         p_ghost=rng.choice([0.0, 0.0, 0.05]),
         realistic=True,
     )
+    specs = pre + specs
     gm = GModel(mh)
     by_size = sorted(lines, key=lambda t: (-len(gm.ancestry(t)), t))
     tip = by_size[0] if rng.random() < 0.8 else rng.choice(lines)
@@ -148,7 +164,7 @@ def generate(rng, tier):
     fids = sorted({v[0] for r in anc for v in mh.tree(r).values() if v[1] == "file"})
     ops = []
     for _ in range(rng.randint(4, 10)):
-        rq = {"dir": rng.choice(["reverse", "reverse", "forward"]), "levels": rng.choice([0, 0, 1, 1, 2]), "limit": None, "range": ["none"], "eca": False, "files": [], "delta": None, "pfg": False, "warm": rng.random() < 0.5}
+        rq = {"dir": rng.choice(["reverse", "reverse", "forward"]), "levels": rng.choice([0, 0, 1, 1, 2, 2, 3]), "limit": None, "range": ["none"], "eca": False, "files": [], "delta": None, "pfg": False, "warm": rng.random() < 0.5}
         r = rng.random()
         if r < 0.35 and nlh >= 1:
             a = rng.randint(1, nlh)
@@ -162,14 +178,24 @@ def generate(rng, tier):
         elif r < 0.55:
             b = rng.randint(1, nlh)
             rq["range"] = ["upto", _endpoint_spelling(rng, b, nlh, lh[b - 1]), b]
-        elif r < 0.75:
+        elif r < 0.70:
             d = rng.choice(merged) if merged and rng.random() < 0.75 else rng.choice(lh)
             rq["range"] = ["single", d, rng.choice(["dotted", "dotted", "revid"])]
-            if rq["levels"] == 2:
+            if rq["levels"] >= 2:
                 rq["levels"] = rng.choice([0, 1])
-        if rng.random() < 0.3:
+        elif r < 0.88 and merged:
+            # a range whose upper limit is a merged revision (preferably on a line that was
+            # branched from another merged revision); lower limit: none or one of its
+            # left-hand ancestors (merged or mainline)
+            deep = [x for x in merged if gm.lh_parent(x) is not None and gm.lh_parent(x) not in lh and len(gm.lefthand(x)) >= 2]
+            d = rng.choice(deep) if deep and rng.random() < 0.7 else rng.choice(merged)
+            chain = gm.lefthand(d)
+            s_ = None if rng.random() < 0.35 else rng.choice(chain)
+            rq["range"] = ["dotted", s_, d, rng.choice(["dotted", "dotted", "revid"])]
+            rq["levels"] = rng.choice([1, 1, 0, 0, 2])
+        if rng.random() < (0.55 if rq["levels"] >= 2 else 0.3):
             rq["limit"] = rng.randint(1, max(1, len(anc)))
-        if fids and rng.random() < 0.4:
+        if fids and rq["range"][0] != "dotted" and rng.random() < 0.4:
             rq["files"] = [rng.choice(fids)]
             if rng.random() < 0.2 and len(fids) > 1:
                 rq["files"].append(rng.choice([f for f in fids if f != rq["files"][0]]))
@@ -323,6 +349,15 @@ def execute(sim, plan):
         if kind == "single":
             d = rq["range"][1]
             return set(gm.ancestry(d) - gm.ancestry(gm.lh_parent(d))), [d], d, d in lh
+        if kind == "dotted":
+            s_, d = rq["range"][1], rq["range"][2]
+            chain = list(reversed(gm.lefthand(d)))  # newest first
+            if s_ is not None:
+                chain = chain[: chain.index(s_) + 1]
+                s0 = set(gm.ancestry(d) - gm.ancestry(gm.lh_parent(s_)))
+            else:
+                s0 = set(gm.ancestry(d))
+            return s0, chain, d, False
         raise ValueError(rq)
 
     def endpoints(b, rq):
@@ -335,6 +370,10 @@ def execute(sim, plan):
             text = f"{rq['range'][1]}.."
         elif kind == "upto":
             text = f"..{rq['range'][1]}"
+        elif kind == "dotted":
+            s_, d, how = rq["range"][1], rq["range"][2], rq["range"][3]
+            name = (lambda r: revstr[r]) if how == "dotted" else (lambda r: f"revid:{r}")
+            text = f"{name(s_) if s_ is not None else ''}..{name(d)}"
         else:
             d = rq["range"][1]
             text = revstr[d] if rq["range"][2] == "dotted" else f"revid:{d}"
@@ -350,19 +389,34 @@ def execute(sim, plan):
             return 1 <= rq["range"][2] <= nlh
         if kind == "single":
             return rq["range"][1] in M
+        if kind == "dotted":
+            s_, d = rq["range"][1], rq["range"][2]
+            return d in M and d not in lh and (s_ is None or s_ in gm.lefthand(d))
         return True
 
     def judge_files(rq, paths, s0, rev_full, fwd_full, where, site_kind, call):
         fids = rq["files"]
         algo = "per-file-graph" if rq["pfg"] else "delta-matching"
         view_main = [m for m in lh if m in s0]
-        if not view_main:
-            return  # a merged revision alone: no mainline revisions to compare
+        if not view_main or (rq["range"][0] == "single" and rq["range"][1] not in lh):
+            # a merged revision alone: the view is that revision plus what the merge sort nests under
+            # it; mainline revisions are not part of it even when they are among its ancestors
+            return
         present = {r: {v[0] for v in mh.tree(r).values()} for r in s0}
         T = {r for r in s0 if any(f in gm.touched(r) for f in fids)}
         deletes = sorted(r for r in T if any(f in gm.touched(r) and f not in present[r] for f in fids))
         unfaithful = sorted(r for r in T if gm.merger(r, tip) not in T)
         E1 = [m for m in view_main if m in T]
+        # revisions in which the commit rule records a new per-file version although the tree delta
+        # against the left-hand parent does not show the file: e.g. a merge that keeps its own
+        # name/text of a file the other side changed.  There per-file history and tree comparison
+        # legitimately differ.  (The reverse - a merge whose left-hand delta shows the file while the
+        # version is carried over from the merged side - is the normal case of a merged change.)
+        pf = set()
+        for f in fids:
+            pf |= graphsim.perfile_nodes(mh, tip, f) & s0
+        if pf - T:
+            unfaithful = unfaithful or sorted(pf - T)
         if deletes or unfaithful:
             sim.probe("perfile_not_judged")
             return
@@ -502,6 +556,13 @@ def execute(sim, plan):
                                     sim.fail("denotes", ["denotes", "none", f"single-merged:levels{levels}:{direction}"], f"log {where} ({direction}) lists {ids}; the revision {d} denotes itself plus revisions among {sorted(s0, key=graphsim._natkey)}")
                             elif rq["range"][0] == "single" and levels != 0:
                                 want = None
+                            elif rq["range"][0] == "dotted":
+                                # upper limit on a merged line: it heads the reverse listing, the lower limit
+                                # (when every level is shown) is listed, nothing outside the range, nothing twice
+                                want = None
+                                s_, d = rq["range"][1], rq["range"][2]
+                                if d not in ids or (direction == "reverse" and ids[0] != d) or (levels == 0 and s_ is not None and s_ not in ids) or not set(ids) <= s0 or len(ids) != len(set(ids)):
+                                    sim.fail("denotes", ["denotes", "none", f"dotted-range:levels{levels}:{direction}"], f"log {where} ({direction}) lists {ids}; the range starts at {s_}, ends at {d} and denotes revisions among {sorted(s0, key=graphsim._natkey)}")
                             if want is not None and (sorted(ids) != sorted(want)):
                                 sim.fail("denotes", ["denotes", "none", f"{site_kind}:levels{levels}:{direction}"], f"log {where} ({direction}) lists {ids}; the range denotes {sorted(want, key=graphsim._natkey)} (extra={sorted(set(ids) - want)} missing={sorted(want - set(ids))} duplicates={len(ids) - len(set(ids))})")
                         for rid, revno, depth, hasdelta, tg in got:
@@ -516,17 +577,21 @@ def execute(sim, plan):
                                 sim.fail("numbers", ["numbers", "none", f"delta:{site_kind}"], f"log {where}: delta_type={rq['delta']} but delta present={hasdelta} for {rid}")
                     # ordering
                     want_fwd = [i for i, d in reverse_by_depth_rule([(g[0], g[2]) for g in rev_full])]
-                    if [g[0] for g in fwd_full] != want_fwd:
+                    if rq["range"][0] != "dotted" and [g[0] for g in fwd_full] != want_fwd:
                         sim.fail("order", ["order", "none", f"{site_kind}:levels{levels}"], f"log {where}: forward order {[g[0] for g in fwd_full]} is not reverse_by_depth of the reverse order {[(g[0], g[2]) for g in rev_full]} = {want_fwd}")
                 # limit
-                if rq["limit"]:
+                if rq["limit"] or (levels >= 2 and not paths):
                     full = rev_full if rq["dir"] == "reverse" else fwd_full
-                    lim = call(rq["dir"], rq["limit"])
-                    if full is not None and not isinstance(full, Exception):
-                        if isinstance(lim, Exception):
-                            sim.fail("log_failed", ["log_failed", "none", f"limit:{site_kind}:{type(lim).__name__}"], f"log {where} with limit raised {type(lim).__name__}: {lim}")
-                        if [g[:3] for g in lim] != [g[:3] for g in full[: rq["limit"]]]:
-                            sim.fail("limit", ["limit", "none", f"{site_kind}:levels{levels}:{rq['dir']}:{'files' if paths else 'all'}"], f"log {where}: limit={rq['limit']} gives {[g[:3] for g in lim]}; the unlimited result starts {[g[:3] for g in full[: rq['limit'] + 1]]}")
+                    lims = {rq["limit"], max(1, rq["limit"] // 2), rq["limit"] + 2} if rq["limit"] else set()
+                    if levels >= 2 and not paths:
+                        lims |= set(range(1, 9))  # the level filter and the limit meet here
+                    for n_lim in sorted(lims):
+                        lim = call(rq["dir"], n_lim)
+                        if full is not None and not isinstance(full, Exception):
+                            if isinstance(lim, Exception):
+                                sim.fail("log_failed", ["log_failed", "none", f"limit:{site_kind}:{type(lim).__name__}"], f"log {where} with limit={n_lim} raised {type(lim).__name__}: {lim}")
+                            if [g[:3] for g in lim] != [g[:3] for g in full[:n_lim]]:
+                                sim.fail("limit", ["limit", "none", f"{site_kind}:levels{levels}:{rq['dir']}:{'files' if paths else 'all'}"], f"log {where}: limit={n_lim} gives {[g[:3] for g in lim]}; the unlimited result starts {[g[:3] for g in full[: n_lim + 1]]}")
                 sim.probe("req_" + rq["range"][0] + ("_files" if paths else ""))
                 sim.state_seen((site_kind, levels, rq["dir"], bool(rq["limit"]), len(paths), rq["delta"], rq["pfg"]))
             finally:
